@@ -1,7 +1,11 @@
 (** C01, wider alphabet: toDF, fillna, replace, dropna, dropDuplicates(subset), unpivot and
     groupBy().agg() used as a step.  Specs are the PySpark meaning; the model restates what the composite
     DataFrame methods do (nested decorated calls); both are executable and are compared with the
-    implementation by the correspondence check.  Theorems here: the NA emulations agree with their specs. *)
+    implementation by the correspondence check.  [step_x] models the methods whose SQL is a chain of SELECT
+    blocks (toDF, fillna, replace, dropna); dropDuplicates(subset), unpivot and agg need GROUP BY / UNION ALL /
+    ROW_NUMBER and are modelled by [ChainStages.step_y], which falls back to [step_x] for everything else.
+    Theorems here: the NA emulations agree with their specs (row level); the chain theorems are in
+    ChainExtProof.v and ChainStages.v. *)
 From SF Require Export Model.ChainCheck.
 From Coq Require Import Lia.
 Open Scope Z_scope.
@@ -16,7 +20,8 @@ Inductive xop :=
 | XDropna (how_any : bool) (thresh : option Z) (subset : list string)
 | XDropDup (subset : list string)
 | XUnpivot (ids vals : list string) (var vl : string)
-| XAgg (keys : list string) (aggs : list (aggfn * string * string)).
+| XAgg (keys : list string) (aggs : list (aggfn * string * string))
+| XOrderFlags (ks : list (string * bool)).     (* orderBy(names..., ascending=flags): name, ascending? *)
 
 (** * Specs *)
 Fixpoint assoc {B} (n : string) (l : list (string * B)) : option B :=
@@ -88,6 +93,10 @@ Definition spec_agg (keys : list string) (aggs : list (aggfn * string * string))
                   fst g ++ map (fun a : aggfn * string * string => agg_val cs (fst (fst a)) (snd (fst a)) (snd g)) aggs)
                gs).
 
+(** ORDER BY terms of orderBy(names, ascending=flags), given how a flag becomes a direction and a NULL placement *)
+Definition flag_keys (fdesc fnf : bool -> bool) (ks : list (string * bool)) : list okey :=
+  map (fun p : string * bool => mkKey (ECol (fst p)) (fdesc (snd p)) (fnf (snd p))) ks.
+
 Definition spec_x (x : xop) (fr : frame) : frame :=
   let cs := cols fr in
   match x with
@@ -103,6 +112,7 @@ Definition spec_x (x : xop) (fr : frame) : frame :=
       mkFrame (ids ++ [var; vl])
               (flat_map (fun r => map (fun v => key_of cs ids r ++ [VStr v; eval cs r (ECol v)]) vals) (rows fr))
   | XAgg keys aggs => spec_agg keys aggs fr
+  | XOrderFlags ks => spec_step (OOrderBy (flag_keys negb (fun asc => asc) ks)) fr     (* Spark: ASC NULLS FIRST, DESC NULLS LAST *)
   end.
 Definition spec_xrun (xs : list xop) (fr : frame) : frame := fold_left (fun f x => spec_x x f) xs fr.
 
@@ -179,7 +189,8 @@ Section ModelX.
             if dropna_guard how thresh chk then Some (set_last d5 new) else None
         | None => None
         end
-    | XDropDup _ | XUnpivot _ _ _ _ | XAgg _ _ => None
+    | XDropDup _ | XUnpivot _ _ _ _ | XAgg _ _ => None      (* not a chain of SELECT blocks: ChainStages.step_y *)
+    | XOrderFlags _ => None                                 (* needs the generated flag functions: ChainStages.step_y *)
     end.
 
   Fixpoint run_x (d : df) (xs : list xop) : option df :=
